@@ -6,7 +6,7 @@ from vf.runner import Acc
 ID = "C18"
 LEVEL = "model_checking"
 TECHNIQUE = "breadth-first explicit-state search over add/remove histories on two live Enum objects (histories replayed on fresh objects, canonical state hashed for de-duplication), every state compared with two ordinary dicts as reference model"
-RULE = ("initial mappings in dict form, keyword form and as the service-action table of an OpCode (incl. empty, duplicate values, falsy values, nested dict and OpCode values); the library's shipped tables must be unchanged afterwards; construction in both forms with 30 member names that could collide with a constructor parameter name (mapping, name, value, args, kwargs, ...); operations add(name,value) "
+RULE = ("initial mappings in dict form, keyword form and as the service-action table of an OpCode (incl. empty, duplicate values, falsy values, nested dict and OpCode values); the library's shipped tables must be unchanged afterwards; construction in both forms with 30 member names that could collide with a constructor parameter name (mapping, name, value, args, kwargs, ...); operations look(attribute probing / copy, deepcopy, pickle of the table and an instance / inspect - what outside parties do without the API), add(name,value) "
         "and remove(name) on either of two enumerations over names {A, B, 'C-D e'} x values {big int, 0, {'n':1}, OpCode, None | second int, {}, 'x', ''} (quick: the first 5); BFS to "
         "depth 4 (quick) / 5 (thorough) with de-duplication on the ordered item lists of both enumerations; in every state: keys, every getattr, "
         "reverse lookup of every alphabet value, refusal of duplicate add / missing remove, on both enumerations. states = distinct canonical "
@@ -251,6 +251,31 @@ def partitions(tier):
     return [[i, c] for i in range(len(INITS)) for c in range(NCHUNK)] + [["names", 0]]
 
 
+LOOKS = ("attrs", "copy", "inspect")
+
+
+def look(e, kind):
+    """what outside parties do with an enumeration without using its API: attribute probing, copying, inspection (results ignored -
+    none of it is an addition or a removal)"""
+    import copy
+    import functools
+    import inspect
+    import pickle
+    acts = {
+        "attrs": [lambda: hasattr(e, "__annotations__"), lambda: getattr(e, "__wrapped__", None), lambda: dir(e), lambda: vars(e), lambda: repr(e),
+                  lambda: functools.update_wrapper(lambda: 0, e), lambda: e.__doc__, lambda: e.__mro__, lambda: e.__subclasses__()],
+        "copy": [lambda: copy.copy(e), lambda: copy.deepcopy(e), lambda: copy.copy(e()), lambda: copy.deepcopy(e()), lambda: pickle.dumps(e()),
+                 lambda: e().__reduce_ex__(2)],
+        "inspect": [lambda: inspect.getmembers(e), lambda: inspect.signature(e), lambda: inspect.getdoc(e), lambda: inspect.get_annotations(e),
+                    lambda: inspect.classify_class_attrs(e), lambda: hash(e), lambda: e == e, lambda: bool(e)],
+    }[kind]
+    for a in acts:
+        try:
+            a()
+        except Exception:   # noqa: BLE001
+            pass
+
+
 def build(init, hist, vals):
     """fresh real enums + reference dicts after replaying hist; returns (enums, models, last_outcome)"""
     from pyscsi.utils.enum import Enum
@@ -271,6 +296,9 @@ def build(init, hist, vals):
     for step, op in enumerate(hist):
         which, kind, name = op[0], op[1], op[2]
         e, m = enums[which], models[which]
+        if kind == "look":
+            look(e, name)
+            continue
         if kind == "add":
             v = vd[op[3]]
             try:
@@ -428,6 +456,8 @@ def run_partition(part, tier, seed):
             for t, _ in vals:
                 ops.append((which, "add", n, t))
             ops.append((which, "remove", n))
+        for kind in LOOKS:
+            ops.append((which, "look", kind))
     shipped0 = shipped_snapshot()
     # the OpCode-made enumerations add breadth (more empty starting points); they are explored one level shallower
     depth = b["depth"] - (1 if any(form == "op" for form, _ in INITS[idx]) else 0)
